@@ -96,6 +96,15 @@ Theorem C18_annotated_counts :
 Proof. exact (fun a b => conj (an_add_photons a b) (fun r => an_merge_photons a b r)). Qed.
 Print Assumptions C18_annotated_counts.
 
+(* annotated states: a[:k] + a[k:] == a for every annotated state a (the canonical form
+   an_make raw of any label lists) and EVERY integer k *)
+Theorem C18_annotated_slice_split :
+  forall (raw : list (list Z)) (k : Z),
+    let a := an_make raw in
+    an_add (an_slice a None (Some k)) (an_slice a (Some k) None) = a.
+Proof. exact an_slice_split. Qed.
+Print Assumptions C18_annotated_slice_split.
+
 (* inserting heralds and removing the herald modes again is the identity, for
    every state and every herald dictionary (distinct keys, all inside the
    enlarged state), in any key order; heralds land on their modes *)
